@@ -6,8 +6,8 @@
      sig.from_hex_der text               -> OK:<r>;<s>
      sig.compact r s recid comp          -> OK:<65 bytes>;<r'>;<s'>;<hdr'>
      sig.from_compact bytes              -> OK:<r>;<s>;<hdr>
-     sig.recover compact msg hash        -> OK:<pubkey> | OK:E
-     sig.recover_digest compact digest   -> OK:<pubkey> | OK:E
+     sig.recover compact msg hash        -> OK:K;<pubkey> | OK:E
+     sig.recover_digest compact digest   -> OK:K;<pubkey> | OK:E
      sig.sign_recover key comp msg hash rk msg2 hash2 -> OK:<same>;<pubkey> | OK:E
      sighashsig.roundtrip r s flag       -> OK:<bytes>;<bytes'>
      sighashsig.parse bytes              -> OK:<bytes'>
@@ -69,17 +69,16 @@ Definition run_from_compact (bs : bytes) : string :=
         end) "-".
 
 Definition rec_out (o : outcome pubkey) : outcome string :=
-  match o with Ok p => Ok (show_bytes (pk_point p)) | Err => Ok "E" | Panic => Panic end.
+  match o with Ok p => Ok ("K;" +++ show_bytes (pk_point p)) | Err => Ok "E" | Panic => Panic end.
 
-(* recovery of an arbitrary compact signature: the property only demands that it does not panic *)
-Definition no_panic_spec (impl : string) : string := if String.eqb impl "PANIC" then "OK:E~ERR" else "-".
+(* recovery of an arbitrary compact signature: the property demands that it returns a key or an error — never a panic
+   (in particular for signatures that recover to the point at infinity, s*R = z*G) *)
+Definition no_panic_spec : string := "OK:K;*~OK:E~ERR".
 
 Definition run_recover (cb msg : bytes) (h : signing_hash) : string :=
-  let impl := render (do sg <- from_compact_impl cb; rec_out (get_public_key FP sg msg h)) in
-  out3 impl (no_panic_spec impl) "-".
+  out3 (render (do sg <- from_compact_impl cb; rec_out (get_public_key FP sg msg h))) no_panic_spec "-".
 Definition run_recover_digest (cb digest : bytes) : string :=
-  let impl := render (do sg <- from_compact_impl cb; rec_out (get_public_key_from_digest FP sg digest)) in
-  out3 impl (no_panic_spec impl) "-".
+  out3 (render (do sg <- from_compact_impl cb; rec_out (get_public_key_from_digest FP sg digest))) no_panic_spec "-".
 
 Definition run_sign_recover (kb : bytes) (c : bool) (msg : bytes) (h : signing_hash) (rk : bool)
            (msg2 : bytes) (h2 : signing_hash) : string :=
